@@ -29,6 +29,9 @@ type subjHost struct {
 }
 
 type instDriver struct {
+	queued      bool // the trace starts with messages queued before the start alarm
+	queuedTerms []string
+	startNow    int64
 	scaled      []int64 // floor(65535*power/total) per table index, computed independently of gpbft.PowerTable
 	scaledTotal int64
 	r       *rng
@@ -255,6 +258,93 @@ func (d *instDriver) start() error {
 	_ = nb
 	d.after(fmt.Sprintf("EvStart %d", int64(d.now.Sub(d.t0))), "start", err)
 	return err
+}
+
+// startWithQueue: the instance is scheduled, messages arrive BEFORE its start alarm fires (they are queued by the participant),
+// then the alarm fires: beginInstance = Start + ReceiveMany(the drained queue, ordered by round and step).  At most one
+// message per (round, step) is queued so that the drained order is determined.  The first observation covers everything.
+type queuedMsg struct {
+	sender gpbft.ActorID
+	round  uint64
+	phase  gpbft.Phase
+	value  *gpbft.ECChain
+	just   *gpbft.Justification
+}
+
+func (d *instDriver) startWithQueue(ms []queuedMsg) error {
+	if err := d.p.StartInstanceAt(0, d.now); err != nil {
+		return err
+	}
+	type qt struct {
+		round uint64
+		phase gpbft.Phase
+		term  string
+	}
+	var qs []qt
+	seen := map[string]bool{}
+	for _, q := range ms {
+		k := fmt.Sprint(q.round, q.phase)
+		if seen[k] {
+			continue
+		}
+		mb := &gpbft.MessageBuilder{NetworkName: verifNet, PowerTable: d.pt,
+			Payload: gpbft.Payload{Instance: 0, Round: q.round, Phase: q.phase, SupplementalData: d.supp, Value: q.value}, Justification: q.just}
+		if q.phase == gpbft.CONVERGE_PHASE {
+			mb.BeaconForTicket = []byte("beacon")
+		}
+		msg, err := mb.Build(d.ctx, d.backend, q.sender)
+		if err != nil {
+			continue
+		}
+		vm, err := d.p.ValidateMessage(d.ctx, msg)
+		if err != nil {
+			continue
+		}
+		if err := d.p.ReceiveMessage(d.ctx, vm); err != nil {
+			continue
+		}
+		seen[k] = true
+		rank := "0"
+		if q.phase == gpbft.CONVERGE_PHASE {
+			sp, _ := d.pt.Get(q.sender)
+			rank = rankKey(gpbft.ComputeTicketRank(msg.Ticket, sp))
+		}
+		j := "None"
+		if q.just != nil {
+			var sl []int64
+			_ = q.just.Signers.ForEach(func(b uint64) error { sl = append(sl, int64(b)); return nil })
+			j = fmt.Sprintf("(Some (mkJ %d %s %s %s))", q.just.Vote.Round, phaseCoqN(q.just.Vote.Phase), d.ct.raw(q.just.Vote.Value), cListZ(sl))
+		}
+		d.record(q.sender, q.round, q.phase, q.value, q.just, msg)
+		qs = append(qs, qt{q.round, q.phase, fmt.Sprintf("(mkM %d %d %s %s %s %s, None)", d.idx(q.sender), q.round, phaseCoqN(q.phase), d.ct.raw(q.value), rank, j)})
+		d.desc = append(d.desc, fmt.Sprintf("queued %s r%d from %d value=%s just=%v", q.phase, q.round, q.sender, q.value, q.just != nil))
+	}
+	// Drain's order: by round, then by step (one message per class)
+	sort.SliceStable(qs, func(a, b int) bool {
+		if qs[a].round != qs[b].round {
+			return qs[a].round < qs[b].round
+		}
+		return qs[a].phase < qs[b].phase
+	})
+	for _, q := range qs {
+		d.queuedTerms = append(d.queuedTerms, q.term)
+	}
+	d.queued = true
+	d.startNow = int64(d.now.Sub(d.t0))
+	d.host.outs = nil
+	err := d.p.ReceiveAlarm(d.ctx)
+	d.after(fmt.Sprintf("EvStart %d", d.startNow), fmt.Sprintf("start with %d queued messages", len(qs)), err)
+	return err
+}
+
+// traceTerm: the Coq proposition the trace of this driver has to satisfy
+func (d *instDriver) traceTerm() string {
+	if !d.queued {
+		return fmt.Sprintf("trace_ok %s %s %s", d.cfgTerm(), d.ct.raw(d.input), cList(d.events))
+	}
+	first := d.events[0] // "(EvStart t, obs)"
+	obs := first[strings.Index(first, ", ")+2 : len(first)-1]
+	return fmt.Sprintf("traceq_ok %s %s %d %s %s %s", d.cfgTerm(), d.ct.raw(d.input), d.startNow, cList(d.queuedTerms), obs, cList(d.events[1:]))
 }
 
 func (d *instDriver) fireAlarm() error {
